@@ -49,6 +49,71 @@ def nontrivial(case, impl):
     return False
 
 
+def _mat_term(toks, k):
+    """<mat> = m n nnz (i j v)*  ->  (Coq term of type spmat Z, next index)"""
+    m, n, nnz = int(toks[k]), int(toks[k + 1]), int(toks[k + 2])
+    k += 3
+    cols = [[] for _ in range(n)]
+    for _ in range(nnz):
+        i, j, v = int(toks[k]), int(toks[k + 1]), int(toks[k + 2])
+        k += 3
+        cols[j].append("(%d, (%d)%%Z)" % (i, v))
+    return "(mk_spmat %d %d [%s])" % (m, n, "; ".join("[" + "; ".join(c) + "]" for c in cols)), k
+
+
+def _vec_term(toks, k):
+    d, nnz = int(toks[k]), int(toks[k + 1])
+    k += 2
+    es = []
+    for _ in range(nnz):
+        es.append("(%d, (%d)%%Z)" % (int(toks[k]), int(toks[k + 1])))
+        k += 2
+    return "(%d, [%s])" % (d, "; ".join(es)), k
+
+
+def kernel_crosscheck(ctx, limit=120):
+    """a sample of the Z-ring triangular-solve cases (solve / solvel / solvev / inv) evaluated by vm_compute inside coqc
+    (the kernel's evaluator on Model/Triang.v itself) must give exactly what the EXTRACTED runner printed: this
+    cross-checks extraction + OCaml driver (parsing, printing, nat/int glue) on these cases"""
+    import os
+    out = os.path.join(ctx.work, "corr")
+    try:
+        cases = open(os.path.join(out, "cases.txt")).read().splitlines()
+        model = open(os.path.join(out, "model.txt")).read().splitlines()
+    except OSError:
+        return {}, []
+    sel = [(c.split(), m) for c, m in zip(cases, model)
+           if c.startswith(("solve Z ", "solvel Z ", "solvev Z ", "inv Z ")) and len(c.split()) <= 160
+           and "DIFFER" not in m]
+    step = max(1, len(sel) // limit)
+    ex = []
+    for t, m in sel[::step][:limit]:
+        try:
+            up = "true" if t[2] == "U" else "false"
+            a, k = _mat_term(t, 3)
+            if t[0] == "inv":
+                lhs = "inv_triangular Z_ring Z_units %s %s" % (up, a)
+            elif t[0] == "solvev":
+                y, k = _vec_term(t, k)
+                lhs = "solve_triangular_vec Z_ring Z_units %s %s %s" % (up, a, y)
+            else:
+                y, k = _mat_term(t, k)
+                fn = "solve_triangular" if t[0] == "solve" else "solve_triangular_left"
+                lhs = "%s Z_ring Z_units %s %s %s" % (fn, up, a, y)
+            if m == "P":
+                rhs = "None"
+            elif t[0] == "solvev":
+                rhs = "Some %s" % _vec_term(m.split(), 0)[0]
+            else:
+                rhs = "Some %s" % _mat_term(m.split(), 0)[0]
+        except (ValueError, IndexError):
+            continue
+        ex.append((lhs, rhs))
+    pre = ["From Coq Require Import List ZArith Arith.",
+           "Require Import Yui.Base.Ring Yui.Model.Triang Yui.Proofs.C12Rings.", "Import ListNotations."]
+    return C.kernel_examples(ctx, pre, ex)
+
+
 def run(ctx):
     obl = C.coq_obligations(ctx.pid, ["Extract/ExtractC12.vo"])
     extra = {}
@@ -61,6 +126,11 @@ def run(ctx):
         extra["threads_differ"] = sum(1 for (_, _, a, _) in corr["disagreements"] if a.startswith("THREADS-DIFFER"))
         extra["pools"] = [1, 2, 16]
         extra["repetitions_per_pool"] = 5
+        info, probs = kernel_crosscheck(ctx)
+        extra.update(info)
+        if probs:
+            obl["problems"] = obl.get("problems", []) + probs
+            obl["ok"] = False
     return C.finish(ctx, "proof", obl, corr, RULE, extra_cov=extra, assumptions=ASSUME)
 
 
